@@ -7,12 +7,9 @@ import copy
 
 from smartquery.custom_types import Decimal
 from smartquery.exceptions import ParserError, OpsExecutionLimitExceededError
-from smartquery.functions import _dict_key_cast
+from smartquery.functions import _dict_key_cast, _multiply, NUMERIC_TYPES
 from smartquery.utils import safe_cast
 from smartquery.vm_state import VMState
-
-
-NUMERIC_TYPES = (Decimal_, int, float)
 
 
 class Op(ABC):
@@ -73,10 +70,7 @@ class BinOp(Op):
         elif self.op == '-':
             return op1 - op2
         elif self.op == '*':
-            if not isinstance(op1, NUMERIC_TYPES) or not isinstance(op2, NUMERIC_TYPES):
-                raise ParserError(f'Can\'t multiply non-numbers')
-
-            return Decimal(op1) * Decimal(op2)
+            return _multiply(op1, op2)
         elif self.op == '**':
             # explicitly cast to Decimal to avoid powering of big integers
             return Decimal(op1) ** Decimal(op2)
@@ -159,7 +153,7 @@ class ShortOp(Op):
         elif self.op == '-=':
             state.names[self.name] -= value
         elif self.op == '*=':
-            state.names[self.name] *= value
+            state.names[self.name] = _multiply(state.names[self.name], value)
         elif self.op == '/=':
             state.names[self.name] /= value
         else:
